@@ -85,6 +85,10 @@ pub fn run(run: &'static Run) {
     };
     let mut bytes_vals = text_vals.clone();
     bytes_vals.push(b"\xff"); // path and url are byte strings
+    // a non-UTF-8 byte together with each separator: validation must look at the bytes, not at a (failed) string conversion
+    bytes_vals.push(b"\xff\nhost=x");
+    bytes_vals.push(b"\xff\0");
+    bytes_vals.push(b"a\xff\r");
     run.rule(format!(
         "each of protocol/host/username/password in {{absent}} + {} values, path/url additionally a non-UTF-8 byte: {:?}; all combinations of the six fields. \
          non-trivial = context accepted, every attribute line seen by a helper is a verbatim field, and from_bytes() returns the same context",
